@@ -22,8 +22,10 @@ AttFull  == {"absent", "blank", "present"} \X {"absent", "blank", "present"}
 QrsFull  == {"absent", "present"} \X {"absent", "empty", "present"}
 NatFull  == NatQuick
 
-VARIABLES cl, allowed, base, native, st
-lvars == <<cl, allowed, base, native, st>>
+VARIABLES cl, allowed, base, native, st, stale
+\* stale: the localization also holds entries keyed by the flow's OWN language (what is left behind when the base language
+\* of a flow is switched to one it had translations for).  The base language means the native text - always.
+lvars == <<cl, allowed, base, native, st, stale>>
 
 \* st[p] = <<state for the first non-base language, state for the second>>; languages in the order eng < fra < spa
 Others(b) == IF b = "eng" THEN <<"fra", "spa">> ELSE <<"eng", "spa">>
@@ -32,13 +34,16 @@ LInit ==
   /\ cl \in ContactLangs /\ allowed \in AllowedLists /\ base \in {"eng", "fra"}
   /\ native \in Natives
   /\ st \in [text : Pairs(States), attachments : AttStates, quick_replies : QrsStates]
+  /\ stale \in BOOLEAN
+  \* (the stale entries are only varied where they can matter: when the walk can reach the base language)
+  /\ (stale => st.text[1] # "present" \/ st.text[2] # "present")
 LNext == UNCHANGED lvars
 
 \* the category name of the router uses the text's states (property "name")
 \* ... and so do the router case's arguments, with "empty" standing for a translation of the wrong length
 ArgState(x) == IF x = "empty" THEN "longer" ELSE x
 StOf(p) == IF p = "name" THEN st.text ELSE IF p = "arguments" THEN <<ArgState(st.text[1]), ArgState(st.text[2])>> ELSE st[p]
-tr == [p \in Props |-> [l \in Langs |-> IF l = base THEN "absent"
+tr == [p \in Props |-> [l \in Langs |-> IF l = base THEN (IF stale THEN "present" ELSE "absent")
                                        ELSE IF l = Others(base)[1] THEN StOf(p)[1] ELSE StOf(p)[2]]]
 
 P == Prefs(cl, allowed, base)
